@@ -58,7 +58,7 @@ CHECKS['C10'] = dict(text="Theorems over a history model of the pool object whos
   "lemmas; end-to-end histories on the real pool: results incl. shared objects in force, reuse/freshness from main's own log, "
   "worker_state private and preserved.", ref="5/C10",
   technique="Coq proof (induction over call histories, effects generated from source) + history oracle")
-CHECKS['C06'] = dict(text="Theorems over the history model (effects read off the source): right after ANY failed or cut-short call, for "
+CHECKS['C06'] = dict(text="Also for an APPLY phase that fails through worker_init / worker_exit (HApplyFails step): the next call or apply_async cleans up first, every later history behaves as on a fresh pool (C06_post_apply_failure_fresh). Theorems over the history model (effects read off the source): right after ANY failed or cut-short call, for "
   "every history before and after, the pool is indistinguishable from a fresh pool with the same settings (no live workers, "
   "ordering flag cleared), so all later calls run with their own parameters and ordering mode. Tie: structural kernels of "
   "_handle_exception / terminate / map / imap / imap_unordered handlers + Spec lemmas; end-to-end histories in which calls fail "
@@ -120,7 +120,7 @@ CHECKS['C07'] = dict(text="Theorems: (Fail model, all interleavings) a user func
   "configuration, with feeder quiescence. Partial: process liveness and the OS are abstracted to the FKilled state; instants where "
   "the victim holds a cross-process lock are out of scope as the property says.", ref="5/C07",
   technique="Coq proof (failure-path invariants + progress over all interleavings; apply per-job invariant) + crash-point injection")
-CHECKS['C08'] = dict(text="Theorems: the decision kernel comms._has_worker_timed_out is TRANSLATED from the source: fires iff the stamp is "
+CHECKS['C08'] = dict(text="History model: the pool-side copy of the map parameters (read by the timeout handler) and the workers' copy agree after every history, so the init/exit timeout in force is the last call's. Theorems: the decision kernel comms._has_worker_timed_out is TRANSLATED from the source: fires iff the stamp is "
   "non-zero and now - stamp >= t; on ANY timeline of one worker slot on which each call completes in less than t -- arbitrary idle "
   "gaps, any number of calls / restarts / reuses, checks at any time -- no check fires (stamps set to now / cleared to 0 in a finally "
   "clause: facts read off worker.py and comms.py); (Fail model) an overrunning init / task / exit makes main raise a TimeoutError of a "
